@@ -12,15 +12,12 @@ Definition real_path (base name : str) : option str :=
   let p := clean (path_join [bpath; name]) in
   if beqb p bpath || prefixb (trim_suffix_slash bpath ++ s_slash) p then Some p else None.
 
-Section BasePath.
-Context {St : Type} (inner : St -> op -> St * res).
-Variable base : str.
-
-Definition bp_err : res := RErr (EW KNotExist).
-
-Definition bp_step (s : St) (o : op) : St * res :=
-  let via (p : str) (k : str -> op) : St * res :=
-    match real_path base p with Some rp => inner s (k rp) | None => (s, bp_err) end in
+(* the call a BasePathFs method forwards to its source: every name goes through RealPath first;
+   None = a name was refused (reported as not existing, the source is not called);
+   handle operations go to the wrapped file unchanged *)
+Definition bp_translate (base : str) (o : op) : option op :=
+  let via (p : str) (k : str -> op) : option op :=
+    match real_path base p with Some rp => Some (k rp) | None => None end in
   match o with
   | Create p => via p Create
   | Mkdir p perm => via p (fun rp => Mkdir rp perm)
@@ -31,19 +28,37 @@ Definition bp_step (s : St) (o : op) : St * res :=
   | RemoveAll p => via p RemoveAll
   | Rename p q =>
     match real_path base p, real_path base q with
-    | Some rp, Some rq => inner s (Rename rp rq)
-    | _, _ => (s, bp_err)
+    | Some rp, Some rq => Some (Rename rp rq)
+    | _, _ => None
     end
   | Stat p => via p Stat
   | Chmod p m => via p (fun rp => Chmod rp m)
   | Chown p u g => via p (fun rp => Chown rp u g)
   | Chtimes p t => via p (fun rp => Chtimes rp t)
-  | HName h =>
-    (* BasePathFile.Name: strings.TrimPrefix(source name, filepath.Clean(path)) *)
-    match inner s o with
-    | (s', RName n) => (s', RName (trim_prefix n (clean base)))
-    | x => x
-    end
-  | _ => inner s o
+  | _ => Some o
+  end.
+
+(* BasePathFile.Name: strings.TrimPrefix(source name, filepath.Clean(path)) *)
+Definition bp_relabel (base : str) (o : op) (r : res) : res :=
+  match o, r with
+  | HName _, RName n => RName (trim_prefix n (clean base))
+  | _, _ => r
+  end.
+
+Section BasePath.
+Context {St : Type} (inner : St -> op -> St * res).
+Variable base : str.
+
+Definition bp_err : res := RErr (EW KNotExist).
+
+Definition bp_step (s : St) (o : op) : St * res :=
+  match bp_translate base o with
+  | None => (s, bp_err)
+  | Some o' => let '(s', r) := inner s o' in (s', bp_relabel base o r)
   end.
 End BasePath.
+
+(* httpFs.go httpDir.Open: the path handed to the source filesystem *)
+Definition http_target (root name : str) : str :=
+  let dir := if is_empty root then s_dot else root in
+  path_join [dir; clean (SLASH :: name)].
